@@ -190,7 +190,7 @@ def ladder_check(acc, mp, prop, fname, args, p, kwargs=None, budget=20, anchors=
             lost = int(mp.ceil(mp.log(err / a3, 2))) + p - bound + 1 if err > 0 else 0
             kind, mc = classify(args, p)
             acc.violation(case, '%s%s at prec %d = %s, reference %s: relative error 2^%d exceeds 2^(%d-p)' % (fname, show(args), p, mp.nstr(V1, 15), mp.nstr(V3, 15), int(mp.log(err / a3, 2)), bound),
-                          fn=fname, kind='accuracy', arg=kind, mag=mc, lostpct=min(130, 100 * lost // p), args=show(args))
+                          fn=fname, kind='accuracy', arg=kind, mag=mc, lostpct=min(130, 100 * lost // p), args=show(args), **({'hp': True} if p >= 600 else {}))
         if anchors:
             for aname, afun in anchors:
                 try:
